@@ -22,6 +22,7 @@ import RbV.Thm.GenSrcSaisBuckets
 import RbV.Thm.GenSrcSaisCalcPos
 import RbV.Thm.GenSrcSaisCalcPosSafe
 import RbV.Thm.GenSrcSaisLms
+import RbV.Thm.GenSrcSaisConstruct
 /-!
 # C03 — suffix array = sorted permutation of all suffixes; LCP; shortest unique substrings
 
@@ -896,7 +897,7 @@ theorem sort_lms_suffixes_source_eq_model (castS : Nat → Option Nat)
   Thm.GenSrcSaisLms.sort_lms_suffixes_eq_model _ _ _ castS constructF t (Sais.tyOf t) cnt rec s bsz (Sais.length_tyOf t) hsz
     (fun p hp => Sais.sym_ne_last hv p hp)
     (fun q hq => Thm.GenSrcPosTypes.is_lms_pos_eq_model _ q (by rw [Sais.length_tyOf]; exact hq))
-    hcast hc63 hnd hlt hne h0 hrp hcount hrec hback
+    hcast hc63 hnd hlt hne (fun _ => h0) hrp hcount (fun _ _ => hrec _) (fun _ _ => hback _)
 
 -- the naming of `2 1 3 1 3 1 3 0` through the translated code (sorted `pos`, LMS positions 1, 3, 5, 7 ↦ indices 0..3): the
 -- equal LMS substrings at 3 and 1 get one label (reduced text `2 2 1 0`), `label + 1 = 3 < 4`: the recursion is entered (a stub)
@@ -906,5 +907,81 @@ example : (do
       (Gen.SrcPosTypes.is_lms_pos ty) some (fun _ _ _ _ _ _ red => Rs.Res.ok (red, [], [], [], [], []))
       [7, 5, 3, 1, 0, 6, 4, 2] [1, 3, 5, 7] [0, 0, 0, 1, 0, 2, 0, 3] [] [] [] [2, 1, 3, 1, 3, 1, 3, 0] ty 4
     pure r.1) = Rs.Res.ok [2, 2, 1, 0] := by decide
+
+/-! ### `Sais::construct` and the two entry points: the translated pieces tied into one recursion (`Thm/GenSrcSaisConstruct.lean`) -/
+
+/-- **the fuelled recursion over the translated functions = the mirror model `Sais.construct`** on every text SA-IS accepts:
+`constructSrc (f + 1)` is the translated `construct` (translated `PosTypes::new`, `calc_lms_pos`, `calc_pos` on the translated bucket
+functions and predicates) whose `sort_lms_suffixes` calls `constructSrc f`; no panic at any level, the fuel `t.length` suffices
+(the reduced text is shorter), all six fields agree.  `castU` (symbol → `usize`) never fails, `castS w` is value-preserving
+below `2^w` for the width `w` the dispatch selects. -/
+theorem construct_source_eq_model (castU : Nat → Option Nat) (castS : Nat → Nat → Option Nat)
+    (hcU : ∀ c, castU c = some c) (hcS : ∀ w x, x < 2 ^ w → castS w x = some x)
+    (f : Nat) (t : List Nat) (s : Sais.St) (bsz : Rs.VecMap) (hv : Sais.Valid t) (hf : t.length ≤ f)
+    (hs : t.length ≤ s.redPos.length) (hsz : s.redPos.length < 2 ^ 62) :
+    ∃ bsz', Thm.GenSrcSaisConstruct.constructSrc castU castS f s.pos s.lmsPos s.redPos bsz s.bStart s.bEnd t =
+      Rs.Res.ok ((Sais.construct f t s).pos, (Sais.construct f t s).lmsPos, (Sais.construct f t s).redPos, bsz',
+        (Sais.construct f t s).bStart, (Sais.construct f t s).bEnd) := by
+  -- the translated units this statement is about, named so that the orchestrator does not count it when one of them cannot be
+  -- regenerated (`stale_source_theorems` in `./check` looks for the unit names)
+  have _u := (@Gen.SrcSaisLms.construct, @Gen.SrcSaisCalcPos.calc_pos, @Gen.SrcSaisBuckets.init_bucket_start, @Gen.SrcPosTypes.new)
+  exact Thm.GenSrcSaisConstruct.constructSrc_eq_model castU castS hcU hcS f t s bsz hv hf hs hsz
+
+/-- **`suffix_array_int` from the source text**: `Sais::new(n)`, the recursion over the translated functions, `sais.pos` returns
+an array accepted by `checkSorted` for every dense integer text that ends in its unique minimum (`n < 2^62`) -/
+theorem suffix_array_int_source_sorted (castU : Nat → Option Nat) (castS : Nat → Nat → Option Nat)
+    (hcU : ∀ c, castU c = some c) (hcS : ∀ w x, x < 2 ^ w → castS w x = some x)
+    (t : List Nat) (hv : Sais.Valid t) (hsz : t.length < 2 ^ 62) :
+    ∃ sa, Thm.GenSrcSaisConstruct.suffixArrayIntSrc castU castS t = Rs.Res.ok sa ∧ checkSorted t sa = true := by
+  -- the translated units this statement is about, named so that the orchestrator does not count it when one of them cannot be
+  -- regenerated (`stale_source_theorems` in `./check` looks for the unit names)
+  have _u := (@Gen.SrcSaisLms.construct, @Gen.SrcSaisCalcPos.calc_pos, @Gen.SrcSaisBuckets.init_bucket_start, @Gen.SrcPosTypes.new)
+  obtain ⟨r, h1, h2⟩ := Thm.GenSrcSaisConstruct.constructSrc_sorted castU castS hcU hcS t t.length hv (Nat.le_refl _) hsz
+  refine ⟨r.1, ?_, (checkSorted_iff_sorted t r.1).mpr h2⟩
+  unfold Thm.GenSrcSaisConstruct.suffixArrayIntSrc
+  rw [h1]; rfl
+
+/-- **`suffix_array` from the source text** returns an array accepted by `checkSA` (⇔ the property C03, `checkSA_iff`) for every
+non-empty byte text whose last symbol is its smallest, `n + 256 < 2^62`: translated `Alphabet::new`, `sentinel_count`,
+`transform_text`, then the recursion over the translated `construct` / `PosTypes::new` / `calc_lms_pos` / `calc_pos` /
+`init_bucket_*` / `sort_lms_suffixes` / `lms_substring_eq` started from `Sais::new(n)`, then `sais.pos` — no panic anywhere.
+**Partial** in exactly this sense: (1) the five glue statements of `suffix_array` itself (`Sais::new`, the `match` on
+`alphabet.len() + sentinel_count` with its guards, `sais.pos`) and the recursion knot are the hand-written
+`suffixArraySrc` / `constructSrc`, not translated text — the `match` is represented by the abstract `castT` with the contract
+the arm taken guarantees (`sais_transform_width_fits` proves it of the *extracted* guards, `Gen/SaisWidth.lean`); (2) the
+`cast`s are abstract functions with the contracts `hcast`, `hcU`, `hcS` (value-preserving where the type is wide enough), not
+derived from `num_traits`. -/
+theorem suffix_array_source_sorted_partial (castT castU : Nat → Option Nat) (castS : Nat → Nat → Option Nat)
+    (t : List Nat) (hne : t ≠ []) (hb : ∀ c ∈ t, c < 256) (hmin : ∀ p, p < t.length → sentinelOf t ≤ t.getD p 0)
+    (hsz : t.length + 256 < 2 ^ 62)
+    (hcast : ∀ x, x < (Alpha.mk t).length + t.count (sentinelOf t) → castT x = some x)
+    (hcU : ∀ c, castU c = some c) (hcS : ∀ w x, x < 2 ^ w → castS w x = some x) :
+    ∃ sa, Thm.GenSrcSaisConstruct.suffixArraySrc castT castU castS t = Rs.Res.ok sa ∧ checkSA t sa = true := by
+  -- the translated units this statement is about, named so that the orchestrator does not count it when one of them cannot be
+  -- regenerated (`stale_source_theorems` in `./check` looks for the unit names)
+  have _u := (@Gen.SrcSaisLms.construct, @Gen.SrcSaisCalcPos.calc_pos, @Gen.SrcSaisBuckets.init_bucket_start, @Gen.SrcPosTypes.new)
+  have q : (2 : Nat) ^ 62 < 2 ^ 64 := by decide
+  obtain ⟨tt, h1, hv, hlen, hacc⟩ := transform_text_source_feeds_sais castT t hne hb hmin (by omega) hcast
+  obtain ⟨r, h2, h3⟩ := Thm.GenSrcSaisConstruct.constructSrc_sorted castU castS hcU hcS tt t.length hv (by omega) (by omega)
+  refine ⟨r.1, ?_, hacc r.1 h3⟩
+  unfold Thm.GenSrcSaisConstruct.suffixArraySrc
+  have hmin' : ∀ a ∈ t, sentinelOf t ≤ a := by
+    intro a ha
+    obtain ⟨i, hi, he⟩ := Sais.exists_getD_of_mem t a ha
+    rw [← he]; exact hmin i hi
+  rw [Thm.GenSrcAlphabet.alphabetNew_eq_model t hb, Thm.GenSrcTransform.sentinel_count_eq_model t hne hmin' (by omega)] at h1 ⊢
+  simp only [Rs.Res.ok_bind] at h1 ⊢
+  rw [h1]
+  simp only [Rs.Res.ok_bind]
+  rw [h2]; rfl
+
+-- both entry points evaluated through the translated code: the doc tests of `suffix_array_int` and a two-sentence text
+set_option maxRecDepth 100000 in
+example : Thm.GenSrcSaisConstruct.suffixArrayIntSrc some (fun w x => if x < 2 ^ w then some x else none)
+    [3, 2, 2, 4, 4, 1, 2, 1, 0] = Rs.Res.ok [8, 7, 5, 6, 1, 2, 0, 4, 3] := by decide
+set_option maxRecDepth 100000 in
+example : (do let sa ← Thm.GenSrcSaisConstruct.suffixArraySrc (fun x => if x < 256 then some x else none) some
+                (fun w x => if x < 2 ^ w then some x else none) [98, 97, 36, 98, 97, 36]
+              pure (checkSA [98, 97, 36, 98, 97, 36] sa)) = Rs.Res.ok true := by decide
 
 end RbV.Thm.C03
